@@ -6,7 +6,7 @@ started before Connect, before the first message and during negotiation, for 1.0
 run on the real Client (harness/llrp/client_script_test.go) and on the extracted model; the property
 is evaluated directly on Go's observations (bytes the peer saw, Write calls the client made, order of
 frames, callers' results) with the codec model as the reference reader of the first message."""
-import json, random, re
+import json, random, re, struct
 import vlib
 import client_common as cc
 import client_c0809 as cx
@@ -61,6 +61,14 @@ class B(cc.SB):
         self.send(c, typ, n, self.tag(), expect=False, api=api)
         return c
 
+    def shutdown(self):
+        """start a Shutdown (the third exported way in: SendMessage(CloseConnection) + Close) as a caller: returns its id"""
+        self.ncall += 1
+        c = self.ncall
+        self.steps.append(dict(op="shutdown", caller=c))
+        self.reqs[c] = dict(typ=cc.T_CLOSE, len=0, tag=0, api="Shutdown")
+        return c
+
     def probe(self):
         """nothing may be pending on the wire, nothing may have been written"""
         self.expect_none()
@@ -71,7 +79,9 @@ class B(cc.SB):
         """the peer reads caller c's request and answers it (SendNoWait callers are not answered)"""
         self.req_index[c] = self.nseen
         self.expect()
-        if self.reqs[c]["api"] != "SendNoWait":
+        if self.reqs[c]["api"] == "SendFor":           # (the runner's Incoming expects a reply of the request's own type)
+            self.reply_to(c, self.reqs[c]["typ"], 3 + c, self.tag())
+        elif self.reqs[c]["api"] != "SendNoWait":
             self.reply_to(c, resp_type(self.reqs[c]["typ"]), 3 + c, self.tag())
         self.wait(c)
         return self
@@ -120,7 +130,7 @@ def tail(b, rnd, good, plan=None, early_at=()):
         for k, (rtyp, pl) in enumerate(plan[1]):
             b.expect()                                  # GetSupportedVersion / SetProtocolVersion
             if ("neg%d" % k) in early_at:
-                early.append(b.caller(rnd, api=rnd.choice([None, "SendNoWait"])))
+                early.append(b.caller(rnd, api=rnd.choice([None, "SendNoWait"] + (["SendFor"] if len(early_at) == 1 and not early else []))))
             b.expect_none()                             # nothing else may be pending while negotiating
             b.reply(b.nseen - 1, rtyp, pl=pl, ver=2)
     b.op("state")
@@ -305,20 +315,119 @@ def gen_scripts(seed, thorough, seed_round=0):
                     if not thorough and len(pos) > 1 and n % 2 == 0:
                         continue
                     b = B("c08-early-%s-%s-%s-v%d" % (fname, plan[0] if plan else "noneg", "+".join(pos), version), version)
+                    apis = [None, None, "SendNoWait"] + (["SendFor", "SendFor"] if len(pos) == 1 else [])   # every exported way in
                     if "pre" in pos:
                         b.new_client()
-                        b.early.append(b.caller(rnd, api=rnd.choice([None, None, "SendNoWait"])))
+                        b.early.append(b.caller(rnd, api=rnd.choice(apis)))
                         b.wait(b.early[-1])
                     b.start(no_first=True)
                     b.probe()
                     if "gate" in pos:
-                        b.early.append(b.caller(rnd, api=rnd.choice([None, None, "SendNoWait"])))
+                        b.early.append(b.caller(rnd, api=rnd.choice(apis)))
                         b.probe()
                     f = dict(first)
                     b.add(op="peer_send", typ=f["typ"], id=f.get("id", 0), ver=version,
                           pl=f.get("pl") if f.get("pl") is not None else dict(k="tag", len=0, tag=0))
                     tail(b, rnd, good, plan=plan, early_at=[p for p in pos if p.startswith("neg")])
                     add(b, "early-callers", nocompare=len([p for p in pos]) > 1 and good and (plan is None or plan[2] == "ok"))
+    # H. the header announces MORE payload (within the limit) than the reader delivers before it hangs up / goes quiet, and what is
+    #    delivered is BY ITSELF a well-formed message: every well-formed base (success in several shapes, and a failed attempt) x
+    #    announced surplus (1 byte .. up to the buffering limit) x how much of the surplus still arrives x {EOF, silence}.
+    #    A first message cut short is no first message: the attempt must fail (EOF) / stay held (silence), nothing written.
+    surplus_tail = cx.tlv(257, b"") + cx.tlv(247, struct.pack(">H", 1)) + b"\0" * 64
+    n = 0
+    for bname, tree in bases:
+        base = cx.ser(tree)
+        for k in (1, 2, 4, 28, 4096, cx.MAXBUF - len(base)):
+            for j in sorted({0, 1, min(k - 1, 7)}):
+                if j >= k:
+                    continue
+                for end in ("eof", "silent"):
+                    n += 1
+                    if not thorough and (n + seed_round) % 3 != 0 and not (j == 0 and end == "eof" and k in (1, 28)):
+                        continue
+                    version = 1 + (n % 2)
+                    b = B("c08-short-of-claim-%s-plus%d-got%d-%s-v%d" % (bname, k, j, end, version), version)
+                    if n % 4 == 0:
+                        b.new_client()
+                        b.early.append(b.caller(rnd))
+                    b.start(no_first=True)
+                    b.probe()
+                    b.add(op="peer_send", typ=cx.T_REN, id=0, ver=version, pl=cx.raw(base + surplus_tail[:j]), lenfield=10 + len(base) + k)
+                    b.probe()
+                    if end == "eof":
+                        b.op("peer_close")
+                        tail(b, rnd, False)
+                    else:
+                        c = b.caller(rnd)
+                        b.op("wait_connect")
+                        b.wait(c)
+                        b.probe()
+                    add(b, "short-of-claim")
+    # I. Shutdown as the early caller (it is a request like any other: CloseConnection may reach the wire only after negotiation has
+    #    completed, and must fail if setup fails) x position (before Connect, before the first message, while GetSupportedVersion /
+    #    SetProtocolVersion is outstanding) x first message good / bad x every negotiation plan, alone or next to another early caller
+    n = 0
+    for version in (1, 2):
+        plans = NEG_PLANS if version == 2 else [None]
+        for fname, first, good in firsts[:2]:
+            for plan in (plans if good else plans[:1]):
+                for pos in ("pre", "gate", "neg0", "neg1"):
+                    if pos.startswith("neg") and (version == 1 or not good):
+                        continue
+                    if pos == "neg1" and (plan is None or len(plan[1]) < 2):
+                        continue
+                    for other in (False, True):
+                        n += 1
+                        if other and (good and (plan is None or plan[2] == "ok")):
+                            continue        # (two requests released at once: which one the write loop takes first is not determined)
+                        if other and not thorough and (n + seed_round) % 2:
+                            continue
+                        b = B("c08-early-shutdown-%s-%s-%s%s-v%d" % (fname, plan[0] if plan else "noneg", pos, "-other" if other else "", version), version)
+                        sd = None
+                        if pos == "pre":
+                            b.new_client()
+                            sd = b.shutdown()
+                            b.wait(sd)
+                        b.start(no_first=True)
+                        b.probe()
+                        if other:
+                            b.early.append(b.caller(rnd, api=rnd.choice([None, "SendNoWait"])))
+                        if pos == "gate":
+                            sd = b.shutdown()
+                            b.probe()
+                        f = dict(first)
+                        b.add(op="peer_send", typ=f["typ"], id=f.get("id", 0), ver=version, pl=f.get("pl"))
+                        outcome = "fail"
+                        if good:
+                            outcome = "ok"
+                            if version >= 2:
+                                outcome = plan[2]
+                                for k, (rtyp, pl) in enumerate(plan[1]):
+                                    b.expect()                      # GetSupportedVersion / SetProtocolVersion
+                                    if pos == "neg%d" % k:
+                                        sd = b.shutdown()
+                                    b.expect_none()                 # nothing else may be pending while negotiating
+                                    b.reply(b.nseen - 1, rtyp, pl=pl, ver=2)
+                            b.op("state")
+                        if outcome == "ok":
+                            b.req_index[sd] = b.nseen
+                            b.expect()                              # CloseConnection, now and not earlier
+                            b.reply(b.nseen - 1, cc.T_CLOSER, pl=dict(k="status", code=0), ver=version)
+                            b.wait(sd)
+                            b.expect_none()
+                            b.op("state")
+                            b.op("peer_close")
+                            b.op("wait_connect")
+                            c = b.caller(rnd)
+                            b.wait(c)
+                        else:
+                            b.op("wait_connect")
+                            b.wait(sd)
+                            for e in b.early:
+                                b.wait(e)
+                            b.probe()
+                        add(b, "early-shutdown")
     return out
 
 
@@ -365,6 +474,11 @@ def run(tier, seed, replay=None):
     thorough = tier == "thorough"
     if replay:
         rp = json.load(open(replay))
+        if rp.get("kind") == "half":
+            o = run_timed(exe, [rp["request"]], shards=1, test="TestVerifC08HalfClose")[0]
+            for sig, text in judge_half(rp["request"], o):
+                res.violation(sig, text, dict(kind="half", request=rp["request"], observed=o))
+            return res.finish()
         if rp.get("kind") == "timed":
             o = run_timed(exe, [rp["request"]])[0]
             for sig, text in judge_timed(rp["request"], o):
@@ -478,8 +592,30 @@ def run(tier, seed, replay=None):
     if timed and len(samples) < 6:
         samples.append(dict(timed=timed[0], observed=tobs[0]))
 
+    # a reader that half-closes inside its first message and keeps reading (loopback TCP): bytes that really arrive
+    halves = gen_half(thorough) if not replay else []
+    hobs = run_timed(exe, halves, shards=6, test="TestVerifC08HalfClose")
+    for rq, o in zip(halves, hobs):
+        evals += 1
+        dist["half-close"] = dist.get("half-close", 0) + 1
+        nontriv.add(("half", rq["id"]))
+        bad = judge_half(rq, o)
+        if bad and not any(sg == "harness-run" for sg, _ in bad):
+            # timing plays a part on a changed tree (what the client manages to write before it notices the end of the stream):
+            # a finding is re-run alone before it is reported
+            o = run_timed(exe, [rq], shards=1, test="TestVerifC08HalfClose")[0]
+            bad = judge_half(rq, o)
+        for sig, text in bad:
+            if sig in reported:
+                continue
+            reported.add(sig)
+            res.violation(sig, text + " [half-close scenario %s]" % rq["id"], dict(kind="half", request=rq, observed=o,
+                          theorem="C08_no_first_message_fails / C08_nothing_written_before_ok"))
+    if halves and len(samples) < 7:
+        samples.append(dict(half_close=halves[0], observed=hobs[0]))
+
     res.coverage.update(
-        timed_scenarios=len(timed),
+        timed_scenarios=len(timed), half_close_scenarios=len(halves),
         evaluations=evals, distinct_nontrivial=len(nontriv),
         rule="a case is one script run on the real Client (and, unless several callers are released at once, on the model); distinct by "
              "(reference class of the first message, client version, family, #callers, #steps, script shape); every case is non-trivial: "
@@ -517,7 +653,8 @@ def run_isolated(exe, scripts):
 def gen_timed(thorough):
     out = []
     T = 120
-    earlies = [["pre", "gate", "neg"], ["pre"], ["gate"], ["neg"]] + ([["pre", "neg"], ["gate", "neg"], []] if thorough else [])
+    earlies = [["pre", "gate", "neg"], ["pre"], ["gate"], ["neg"], ["pre-shutdown"], ["neg-shutdown"]] + (
+        [["pre", "neg"], ["gate", "neg"], [], ["pre-shutdown", "gate"], ["pre", "neg-shutdown"]] if thorough else [])
     for silent in ("gsv", "spv"):
         for ka in (True, False):
             for early in earlies:
@@ -541,10 +678,61 @@ def gen_timed(thorough):
     for ka in (True, False):      # control: everything answered (judged only for the order of frames)
         out.append(dict(id="answered-%s" % ("keepalives" if ka else "silence"), timeout_ms=250, silent_on="none", keepalive=ka,
                         early=["pre", "gate", "neg"], budget_ms=400))
+    out.append(dict(id="answered-shutdown-before-connect", timeout_ms=250, silent_on="none", keepalive=False, early=["pre-shutdown"], budget_ms=400))
     return out
 
 
-def run_timed(exe, reqs, shards=6):
+# ------------------------------------------------------------------ half-closing reader over loopback TCP (TestVerifC08HalfClose)
+def gen_half(thorough):
+    """the reader ends its side of the stream (FIN) inside its first message and keeps reading: every interesting cut of a message whose
+    header announces exactly its payload, and messages whose header announces MORE than the reader holds (the held part complete and
+    well-formed by itself), for clients with and without a timeout, with early callers"""
+    out = []
+    good = cx.ser(cx.ren_tree())
+    shapes = [("plain", good), ("uptime", cx.ser(cx.ren_tree(stamp=129))), ("close", cx.ser(cx.ren_tree(followers=[cx.N_CLOSE])))]
+    n = 0
+    for sname, pl in shapes if thorough else shapes[:2]:
+        whole = 10 + len(pl)
+        cases = [(len(pl), c) for c in ((0, 1, 9, 10, 11, 10 + 16, whole - 1) if sname == "plain" else (10, whole - 1))]   # cut inside the announced frame
+        cases += [(len(pl) + k, whole) for k in ((1, 4, 28, 4096) if (thorough or sname == "plain") else (1, 28))]          # all that is held, less than announced
+        for announce, cut in cases:
+            for version in (1, 2):
+                for tmo in (0, 300):
+                    n += 1
+                    if not thorough and tmo and n % 2:
+                        continue
+                    out.append(dict(id="half-close-%s-announce%d-sent%d-v%d-%s" % (sname, announce, cut, version, "T%d" % tmo if tmo else "notimeout"),
+                                    version=version, timeout_ms=tmo, typ=cx.T_REN, payload_hex=pl.hex(), announce=announce, cut=cut,
+                                    early=["pre", "gate"] if n % 3 else ["pre"], budget_ms=3000, grace_ms=60))
+    return out
+
+
+def judge_half(rq, o):
+    if o is None or o.get("error"):
+        return [("harness-run", "no usable observation for half-close scenario %s: %s" % (rq["id"], o))]
+    held = len(rq["payload_hex"]) // 2
+    if rq["announce"] > held:
+        what = "announced a %d-byte payload, sent the header and %d bytes (by themselves a well-formed success event) and half-closed" % (rq["announce"], held)
+    else:
+        what = "sent the first %d of %d bytes of its first message and half-closed" % (rq["cut"], 10 + held)
+    bad = []
+    if o.get("connect") in ("blocked", "nil") or (o.get("ready") and not o.get("closed")):
+        bad.append(("attempt-proceeds-without-first-message", "the reader %s (it still reads): Connect %s after %s ms, ready=%s closed=%s" % (
+            what, o.get("connect"), o.get("connect_ms"), o.get("ready"), o.get("closed"))))
+    if o.get("bytes_received"):
+        bad.append(("write-before-successful-connection-event", "the reader %s, and then RECEIVED %d byte(s) from the client (frame types %s)" % (
+            what, o["bytes_received"], o.get("frame_types"))))
+    for name, r in sorted((o.get("callers") or {}).items()):
+        if r in ("ok", "sent"):
+            bad.append(("caller-succeeds-after-failed-setup", "caller '%s' returned %s though the reader %s" % (name, r, what)))
+        elif r == "blocked":
+            bad.append(("caller-blocked-after-failed-setup", "caller '%s' is still blocked though the reader %s" % (name, what)))
+    if o.get("panics"):
+        bad.append(("panic", "panic: %s" % o["panics"][:2]))
+    return bad
+
+
+def run_timed(exe, reqs, shards=6, test="TestVerifC08Timed"):
     import concurrent.futures
     if not reqs:
         return []
@@ -552,7 +740,7 @@ def run_timed(exe, reqs, shards=6):
     parts = [reqs[i::shards] for i in range(shards)]
 
     def one(k):
-        rc, lines, log = vlib.run_harness(exe, "TestVerifC08Timed", "".join(json.dumps(r) + "\n" for r in parts[k]), timeout=300, tag="_t%d" % k)
+        rc, lines, log = vlib.run_harness(exe, test, "".join(json.dumps(r) + "\n" for r in parts[k]), timeout=300, tag="_t%d%s" % (k, test[-4:]))
         outs = []
         for ln in lines:
             try:
